@@ -48,8 +48,12 @@ pub enum CaseConstraint {
     AllLowercase,
 
     /// First letter uppercase, rest lowercase (Hello, Testword)
-    /// Used for: Title Case words, Train-Case words, Sentence case first word
+    /// Used for: Train-Case words, Sentence case (first word capitalized, later words lowercase)
     TitlePattern,
+
+    /// Every space-separated word has its first letter uppercase and the rest lowercase (Hello World)
+    /// Used for: Title Case. A single word (Hello) satisfies both this and `TitlePattern`.
+    TitleWordsPattern,
 
     /// First letter lowercase, NO consecutive uppercase (hello, helloWorld, testWord)
     /// Used for: camelCase
@@ -101,9 +105,13 @@ impl Style {
                 case: CaseConstraint::TitlePattern,
                 separator: Some('-'),
             },
-            // Title and Sentence both use TitlePattern with space separator
-            // (Sentence is title case first word, then lowercase - but constraint is same)
-            Self::Title | Self::Sentence => StyleConstraints {
+            // Title Case capitalizes every word, Sentence case only the first one:
+            // "Foo Bar" is Title only, "Foo bar" is Sentence only, a single word "Foo" is both
+            Self::Title => StyleConstraints {
+                case: CaseConstraint::TitleWordsPattern,
+                separator: Some(' '),
+            },
+            Self::Sentence => StyleConstraints {
                 case: CaseConstraint::TitlePattern,
                 separator: Some(' '),
             },
@@ -190,6 +198,15 @@ fn check_case_constraint(text: &str, constraint: CaseConstraint) -> bool {
             let first = chars.next();
             first.is_some_and(char::is_uppercase)
                 && chars.all(|c| c.is_lowercase() || !c.is_alphabetic())
+        },
+
+        CaseConstraint::TitleWordsPattern => {
+            // Every space-separated word: first letter uppercase, rest lowercase
+            text.split(' ').all(|word| {
+                let mut chars = word.chars();
+                chars.next().is_some_and(char::is_uppercase)
+                    && chars.all(|c| c.is_lowercase() || !c.is_alphabetic())
+            })
         },
 
         CaseConstraint::CamelPattern => {
